@@ -138,3 +138,18 @@ Definition key_move_b (p : Position) (m : Mv) : bool :=
 Definition attack_pre_b (p : Position) : bool :=
   bb8_b p && forallb (wf_b p) sq64_list
   && (popcount (N.land (kings p) (c_us p)) =? 1) && (popcount (N.land (kings p) (c_them p)) =? 1).
+
+(* ------------------------------------------------------------------ executable form of the position-level premises under which every
+   generated move refines the rules (C02) and keeps the key invariant (C04): proofs/GenSane.v *)
+Definition good_pos_b (p : Position) : bool :=
+  let ksq := lsb (N.land (kings p) (c_us p)) in
+  key_pos_b p
+  && (N.land (c_us p) (c_them p) =? 0)
+  && (popcount (N.land (kings p) (c_us p)) =? 1)
+  && (cf0 p <=? 7) && (cf1 p <=? 7) && (cf2 p <=? 7) && (cf3 p <=? 7)
+  && (match ep p with
+      | Some e => (8 <=? e) && (e <? 64) && empty_b p e && holds_b p (e - 8) true PAWN
+      | None => true
+      end)
+  && implb' (us_ksc p) (ksq <? sq_of (cf0 p) 0)
+  && implb' (us_qsc p) ((sq_of (cf1 p) 0 <? ksq) && (ksq <? 8)).
